@@ -165,6 +165,27 @@ type pwFrame struct {
 // pwOrigin: copy of an instruction -> the instruction of the program it was made from
 var pwOrigin sync.Map
 
+// forgetProgram drops what the process-wide caches hold about a program that is no longer analysed
+// (the corpus replay analyses many variants of the repository one after the other).
+func forgetProgram(prog *ssa.Program) {
+	if prog == nil {
+		return
+	}
+	pwOrigin.Range(func(k, v interface{}) bool {
+		if ins, ok := v.(ssa.Instruction); ok && ins.Parent() != nil && ins.Parent().Prog == prog {
+			pwOrigin.Delete(k)
+		}
+		return true
+	})
+	constTabCache.Range(func(k, v interface{}) bool {
+		if p, ok := k.(*ssa.Package); ok && p.Prog == prog {
+			constTabCache.Delete(k)
+		}
+		return true
+	})
+	worldByProg.Delete(prog)
+}
+
 // origInstr returns the program's instruction for a per-activation copy (or ins itself).
 func origInstr(ins ssa.Instruction) ssa.Instruction {
 	if o, ok := pwOrigin.Load(ins); ok {
